@@ -679,9 +679,13 @@ func finish(spec *chain.PropSpec, tier string, base int64, recs []runRec, start 
 	}
 	ev := evidence{PropertyID: spec.ID, Tier: tier, Seed: base, Level: spec.Level, Coverage: cov, WallS: wall, Violations: nviol,
 		Assumptions: append([]string{"process-crash disk model (completed writes durable, batches atomic)", "IAVL/tm-db internals run real but un-instrumented", "search samples the space: a clean batch is evidence, not proof"}, spec.Assumptions...)}
-	os.MkdirAll(filepath.Join(verifRoot, "evidence"), 0o755)
+	evDir := filepath.Join(verifRoot, "evidence")
+	if d := os.Getenv("VERIF_EVIDENCE_DIR"); d != "" { // development aid: runs against a changed checkout must not overwrite the evidence of /repo
+		evDir = d
+	}
+	os.MkdirAll(evDir, 0o755)
 	b, _ := json.MarshalIndent(ev, "", " ")
-	if err := os.WriteFile(filepath.Join(verifRoot, "evidence", spec.ID+".json"), b, 0o644); err != nil {
+	if err := os.WriteFile(filepath.Join(evDir, spec.ID+".json"), b, 0o644); err != nil {
 		fmt.Fprintln(os.Stderr, err)
 		return 2
 	}
